@@ -3,12 +3,17 @@
  T1 (K2+K6b) NextSubmission::try_add: `self.input` / `self.payload` are assigned only on the
     true edge of `compressed_size <= MAX_PAYLOAD_SIZE_BYTES`; both are assigned together, from
     the same candidate (candidate = clone of current input + this block, payload derived from
-    that candidate); refusing paths assign nothing; the bound is the stated constant.
+    that candidate); refusing paths modify nothing of `self` (assignments and `&mut` borrows
+    alike); the bound is the stated constant and is compared with the compressed size in any
+    spelling.
  T2 (K3) TakeSubmission::poll takes input and payload together (both mem::take, no exit
     between) and the Submission it returns is built from exactly those two.
  T3 (K2) extend_from_sequencer_block: the block's metadata is pushed unconditionally; only the
     rollup entries are guarded by the rollup filter (true edge of should_include of the
-    element's own id); filtered-in data goes under the namespace derived from that same id.
+    element's own id); filtered-in data goes under the namespace derived from that same id;
+    metadata and rollup data are pushed unedited (no in-place modification between the split
+    and the push); the loops over the block's rollups / the accumulated namespaces run to
+    exhaustion.
  T4 (K8) writer/reader agreement: the relayer encodes SubmittedMetadataList /
     SubmittedRollupDataList and compresses with astria_core::brotli::compress_bytes; the
     conductor decompresses with decompress_bytes and decodes the same two types, metadata from
